@@ -50,7 +50,7 @@ pub fn tpath_from_json(v: &Value) -> TPath {
 }
 
 /// member names of the valid stream: empty, numeric-looking, non-ASCII, near-reserved, sibling prefixes
-pub const KEYS: &[&str] = &["a", "b", "zz", "0", "1", "10", "", "A", "é", "_s", "x y", "ab", "a0", "sd", "..", "a/b", "m~n", "~1", "/"];
+pub const KEYS: &[&str] = &["a", "b", "zz", "0", "1", "10", "", "A", "é", "_s", "x y", "ab", "a0", "sd", "..", "a/b", "m~n", "~1", "/", "_sdk", "_sd_", "....", "...x", "_SD", "cnf2"];
 
 fn scalar(r: &mut Rng) -> Value {
     match r.below(9) {
@@ -74,7 +74,15 @@ pub fn gen_value(r: &mut Rng, depth: u32, width: usize) -> Value {
             let n = r.below(width + 1);
             Value::Array((0..n).map(|_| gen_value(r, depth - 1, width)).collect())
         }
-        _ => gen_object(r, depth - 1, width, 0),
+        _ => {
+            let mut o = gen_object(r, depth - 1, width, 0);
+            // below the top level _sd_alg is an ordinary member name
+            if r.chance(1, 12) {
+                let v = gen_value(r, depth.saturating_sub(2), width);
+                o.as_object_mut().unwrap().insert("_sd_alg".to_string(), v);
+            }
+            o
+        }
     }
 }
 
